@@ -174,7 +174,10 @@ pub fn gen_cfg(r: &mut Rng, h: u64, seed: u64, force: Option<(bool, u32)>) -> Cf
         let i = r.below(funds.len() as u64) as usize;
         funds[i].1 = 10 * d;
     }
-    let ifbal = weighted(r, &[(5000u128, 70), (50, 15), (0, 15)]) * d;
+    // the profit-taking campaign runs (`--bias pump`) put more weight on a small or empty insurance fund: payouts whose
+    // shortfall the fund cannot cover either
+    let pump = super::gen::BIAS.get().map(|b| b == "pump").unwrap_or(false);
+    let ifbal = if pump { weighted(r, &[(5000u128, 40), (50, 35), (3, 10), (0, 15)]) } else { weighted(r, &[(5000u128, 70), (50, 15), (0, 15)]) } * d;
     let mut allow: Vec<(u64, u128)> = vec![];
     if !native {
         allow = ALLOW_IDS.iter().map(|id| (*id, 1_000_000 * d)).collect();
